@@ -4,6 +4,7 @@ package main
 // numbering-independent form of the graph reachable from the trailer.
 
 import (
+	"context"
 	"crypto/md5"
 	"crypto/sha1"
 	"encoding/hex"
@@ -55,9 +56,9 @@ func ser(o types.Object, drop map[string]bool) string {
 	case types.Name:
 		return "/" + hx(string(o))
 	case types.StringLiteral:
-		return "s" + hx(string(o))
+		return "s" + strBytes(o)
 	case types.HexLiteral:
-		return "h" + hx(string(o))
+		return "s" + strBytes(o)
 	case types.IndirectRef:
 		if o.GenerationNumber != 0 {
 			panic(unsupported{"generation"})
@@ -95,12 +96,35 @@ func serDict(d types.Dict, drop map[string]bool) string {
 	return strings.Join(p, " ")
 }
 
+// strBytes: the value of a PDF string (hex of its bytes), whatever its syntax
+func strBytes(o types.Object) string {
+	switch o := o.(type) {
+	case types.StringLiteral:
+		b, err := types.Unescape(string(o))
+		if err != nil {
+			return "ERR" + hx(string(o))
+		}
+		return hex.EncodeToString(b)
+	case types.HexLiteral:
+		b, err := o.Bytes()
+		if err != nil {
+			// odd number of digits: a trailing 0 is implied
+			b, err = hex.DecodeString(string(o) + "0")
+			if err != nil {
+				return "ERR" + hx(string(o))
+			}
+		}
+		return hex.EncodeToString(b)
+	}
+	return "?"
+}
+
 var infoVolatile = map[string]bool{"Producer": true, "CreationDate": true, "ModDate": true}
 
 // entryObject returns the object of an in-use entry with lazy object-stream objects decoded.
 func entryObject(e *model.XRefTableEntry) (types.Object, error) {
 	if l, ok := e.Object.(types.LazyObjectStreamObject); ok {
-		return l.DecodedObject(nil)
+		return l.DecodedObject(context.TODO())
 	}
 	return e.Object, nil
 }
@@ -109,6 +133,7 @@ type tableView struct {
 	nrs  []int
 	objs map[int]string // wire form
 	val  map[int]bool
+	lazy map[int]bool
 }
 
 // view serialises the in-use entries of ctx (without object streams, xref streams and the
@@ -123,7 +148,7 @@ func view(ctx *model.Context, skip map[int]bool) (tv *tableView, err error) {
 			panic(e)
 		}
 	}()
-	tv = &tableView{objs: map[int]string{}, val: map[int]bool{}}
+	tv = &tableView{objs: map[int]string{}, val: map[int]bool{}, lazy: map[int]bool{}}
 	info := -1
 	if ctx.Info != nil {
 		info = ctx.Info.ObjectNumber.Value()
@@ -155,6 +180,9 @@ func view(ctx *model.Context, skip map[int]bool) (tv *tableView, err error) {
 		tv.nrs = append(tv.nrs, nr)
 		tv.objs[nr] = ser(o, drop)
 		tv.val[nr] = e.Valid
+		if _, ok := e.Object.(types.LazyObjectStreamObject); ok {
+			tv.lazy[nr] = true
+		}
 	}
 	sort.Ints(tv.nrs)
 	return tv, nil
@@ -169,6 +197,9 @@ func (tv *tableView) wire() string {
 		v := "i"
 		if tv.val[nr] {
 			v = "v"
+		}
+		if tv.lazy[nr] {
+			v = "l"
 		}
 		fmt.Fprintf(&b, "#%s %s %s", vh.Int(int64(nr)), v, tv.objs[nr])
 	}
@@ -250,10 +281,8 @@ func (c *canon) obj(o types.Object, drop map[string]bool) string {
 		return c.dict(o, drop)
 	case types.StreamDict:
 		return "stream" + c.dict(o.Dict, map[string]bool{"Length": true}) + streamToken(o)
-	case types.StringLiteral:
-		return "(" + hx(string(o)) + ")"
-	case types.HexLiteral:
-		return "<" + string(o) + ">"
+	case types.StringLiteral, types.HexLiteral:
+		return "(" + strBytes(o) + ")"
 	case types.Name:
 		return "/" + hx(string(o))
 	default:
@@ -284,13 +313,23 @@ func canonical(ctx *model.Context) (lines []string, err error) {
 		return nil, fmt.Errorf("no root")
 	}
 	c.isRoot = ctx.Root.ObjectNumber.Value()
-	head := "root=" + c.ref(c.isRoot)
+	c.lines = append(c.lines, "root="+c.ref(c.isRoot))
 	if ctx.Info != nil {
 		c.isInfo = ctx.Info.ObjectNumber.Value()
-		head += " info=" + c.ref(c.isInfo)
 	}
-	c.lines = append(c.lines, head)
-	for i := 0; i < len(c.queue); i++ {
+	infoDone := false
+	for i := 0; ; i++ {
+		if i == len(c.queue) {
+			// everything reachable from the catalog is numbered; now the info dict
+			if infoDone || c.isInfo < 0 {
+				break
+			}
+			infoDone = true
+			c.lines = append(c.lines, "info="+c.ref(c.isInfo))
+			if i == len(c.queue) {
+				break
+			}
+		}
 		nr := c.queue[i]
 		o, err := entryObject(ctx.Table[nr])
 		if err != nil {
@@ -353,8 +392,8 @@ func (c *canon) unf(o types.Object, depth int) string {
 			p = append(p, "/"+hx(k)+" "+c.unf(o.Dict[k], depth-1))
 		}
 		return "stream<<" + strings.Join(p, " ") + ">>" + streamToken(o)
-	case types.StringLiteral:
-		return "(" + hx(string(o)) + ")"
+	case types.StringLiteral, types.HexLiteral:
+		return "(" + strBytes(o) + ")"
 	case types.Name:
 		return "/" + hx(string(o))
 	default:
@@ -450,4 +489,44 @@ func pageSequence(ctx *model.Context) (pages []pageView, err error) {
 	}
 	walk(root["Pages"], inh{}, 0)
 	return pages, nil
+}
+
+// ---------------------------------------------------------------- name trees, flattened
+
+// nameTrees lists every (tree, key, value) of the catalog's /Names trees, keys as byte values,
+// values unfolded: the content of the name trees independent of their node structure.
+func nameTrees(ctx *model.Context) (lines []string, err error) {
+	defer func() {
+		if e := recover(); e != nil {
+			err = fmt.Errorf("nameTrees: %v", e)
+		}
+	}()
+	c := &canon{ctx: ctx, num: map[int]int{}}
+	root, _ := c.deref(*ctx.Root).(types.Dict)
+	names, _ := c.deref(root["Names"]).(types.Dict)
+	var walk func(tree string, o types.Object, depth int)
+	walk = func(tree string, o types.Object, depth int) {
+		if depth > 40 {
+			panic("name tree too deep")
+		}
+		d, _ := c.deref(o).(types.Dict)
+		if d == nil {
+			return
+		}
+		if a, _ := c.deref(d["Names"]).(types.Array); a != nil {
+			for i := 0; i+1 < len(a); i += 2 {
+				lines = append(lines, tree+":"+strBytes(c.deref(a[i]))+"="+c.unf(a[i+1], 6))
+			}
+		}
+		if k, _ := c.deref(d["Kids"]).(types.Array); k != nil {
+			for _, e := range k {
+				walk(tree, e, depth+1)
+			}
+		}
+	}
+	for _, k := range sortedKeys(names) {
+		walk(k, names[k], 0)
+	}
+	sort.Strings(lines)
+	return lines, nil
 }
